@@ -216,7 +216,7 @@ theorem phase_ack {p : PS} (h : Inv p) (x n : Nat) (rest : List Msg)
     have hov := objView_append_new x p.a e' _ so rfl
     have hovi : objView x e' p.a.objs.length = some (newObj p.a.opts x n [] 0) := by rw [hov]; simp
     refine ⟨(by show ¬ x ∈ e'.rng; rw [s3]; exact r.ra), r.rb, (by intro m hm; cases hm), fun m hm => (h5 m hm).1,
-      ⟨p.a.objs.length, j, newObj p.a.opts x n [] 0, oP, s1, h1, hovi, h2, ?_, h3, ?_⟩⟩
+      ⟨p.a.objs.length, j, newObj p.a.opts x n [] 0, oP, s1, h1, hovi, h2, ?_, h3, by show _ = e'.opts.rwnd; rw [s4]; rfl, h6, ?_⟩⟩
     · intro k hk
       show objView x e' k = none
       rw [hov, if_neg hk]; exact r.oa k
@@ -233,7 +233,7 @@ theorem phase_ack {p : PS} (h : Inv p) (x n : Nat) (rest : List Msg)
     have hov := objView_append_new x p.a e' _ so rfl
     have hovi : objView x e' p.a.objs.length = some { newObj p.a.opts x n [] 0 with rxOpen := false } := by rw [hov]; simp
     refine ⟨(by show ¬ x ∈ e'.rng; rw [s3]; exact r.ra), r.rb, (by intro m hm; cases hm), fun m hm => (h5 m hm).1,
-      ⟨p.a.objs.length, j, _, oP, s1, h1, hovi, h2, ?_, h3, ?_⟩⟩
+      ⟨p.a.objs.length, j, _, oP, s1, h1, hovi, h2, ?_, h3, by show _ = e'.opts.rwnd; rw [s4]; rfl, h6, ?_⟩⟩
     · intro k hk
       show objView x e' k = none
       rw [hov, if_neg hk]; exact r.oa k
@@ -280,7 +280,7 @@ theorem phase_linked_recv {p : PS} (h : Inv p) (f : Frame) (x : Nat) (hid : f.id
     (hflow : Msg.flow? (.frame f) = some x) (rest : List Msg) (hba : p.ba = .frame f :: rest)
     (r : Linked x (ev x p.a p.ga) (ev x p.b p.gb) (fl x (pathAB p)) (fl x (pathBA p))) :
     Phase x { p with a := (processFrame p.a f false).1, ba := rest } := by
-  obtain ⟨i, j, oA, oB, h1, h2, h3, h4, h5, h6, h7⟩ := r.body
+  obtain ⟨i, j, oA, oB, h1, h2, h3, h4, h5, h6, _, _, h7⟩ := r.body
   obtain ⟨ho, hfid⟩ := objView_some h3
   have hs : lookup p.a.flows x = some (.established i) := h1
   have hhead : fl x (pathBA p) = [.frame f] ++ fl x (rest ++ p.b.outq) := by
